@@ -150,6 +150,14 @@ func ruleWR1(c *Ctx) {
 				okShape = true
 			}
 		}
+		// the temp name may come from a one-expression helper (tmpPathFor(path) = path + ".tmp")
+		if hv, he := c.throughPureHelper(src, nil); !okShape && hv != src {
+			if b, ok := hv.(*ssa.BinOp); ok && b.Op == token.ADD {
+				if s, ok := constString(b.Y); ok && s != "" && c.canon(resolveEnv(b.X, he)) == c.canon(dst) {
+					okShape = true
+				}
+			}
+		}
 		if !okShape {
 			c.bad(fn, construct+"|b:temp-then-rename", pos, "rename source "+c.canon(src)+" is not <destination>+const suffix")
 			continue
